@@ -117,6 +117,19 @@ type World struct {
 	dials    int
 
 	WriteDelay time.Duration
+	ParkN      int
+}
+
+// EnablePark switches lock-site parking on for this run (driver goroutine only).
+func (w *World) EnablePark(seed uint64, n int) {
+	w.ParkN = n
+	core.ParkStart(seed, n)
+}
+
+// StopPark releases everything parked and switches parking off.
+func (w *World) StopPark() {
+	w.Res.Count("lock_site_parks", int64(core.ParkTotal()))
+	core.ParkStop()
 }
 
 // DialBehaviour scripts what a dial and the broker behind it do.
@@ -507,6 +520,11 @@ func (w *World) progress() bool {
 		}
 		if c.Link.B2A.FinPending() {
 			c.Link.B2A.DeliverFIN()
+			did = true
+		}
+	}
+	if core.ParkedCount() > 0 && (!did || w.Sched.Chance(1, 4)) {
+		if core.ReleaseParked(w.Sched) {
 			did = true
 		}
 	}
